@@ -446,7 +446,7 @@ def _execute(plan, choices=None):
                 img = s["instance_image"][0]
                 out_pts = s["instance"][0]
                 orig_pts = torch.tensor(one["pts"], dtype=torch.float32)
-                want_hw = (math.ceil(cfg["crop_hw"][0] / cfg["max_stride"]) * cfg["max_stride"],) * 2
+                want_hw = tuple(math.ceil(c / cfg["max_stride"]) * cfg["max_stride"] for c in cfg["crop_hw"])
                 if tuple(img.shape[-2:]) != want_hw:
                     V("wrong_size", "dataset:centered", f"crop is {tuple(img.shape[-2:])}, requested {cfg['crop_hw']} (max_stride {cfg['max_stride']})")
                     break
